@@ -1,4 +1,4 @@
-import JunoModel.C05.ProofsPrune2
+import JunoModel.C05.ProofsPrune4
 /-!
 C05 — property theorems (statements only; proofs are in `Proofs*.lean`).
 
@@ -233,6 +233,65 @@ example : ∃ c, WfChain c ∧ c.length = 3 ∧
   by_cases h0 : c.length = 0
   · simp [h0] at this
   · simp [h0] at this; omega
+
+/-! ## Pruning nodes: the event index survives `PruneUpto`, and a restart rebuilds it
+
+`PImg W lag c F d`: the disk of a node pruned below `F` — block buckets `PCoh`, persisted windows
+exactly the complete windows from the floor's own window on (`WinsOKP`), snapshot sound for
+retained blocks (`SnapOKP`). `FiltOKP W c F f`: the filter expects the next block, has its aligned
+window and no false negative for any RETAINED block. -/
+
+/-- An unpruned good disk is the image pruned below 0. -/
+theorem good_disk_is_unpruned_image (W lag : Nat) (c : List Block) (n : Node) (hg : Good W c n) :
+    PImg W lag c 0 n.disk :=
+  pimg_of_good hg.coh hg.wins hg.snap
+
+/-- `PruneUpto(e)` on a (possibly already pruned) node, ANY fault (failure of any batch, crash after
+any batch): the image is that of a pruning node with floor `F0 ≤ F ≤ e` INCLUDING its event index —
+the windows entirely below the aligned floor are gone, all others and the snapshot are intact. -/
+theorem prune_keeps_event_index (W : Nat) (fx : Fixes) (c : List Block) (hwf : WfChain c) (n : Node)
+    (F0 e : Nat) (hp : PImg W blockHashLag c F0 n.disk) (hF0 : F0 < e) (he : e ≤ c.length) (ft : Fault)
+    (hb : ft ≠ .failInit ∧ ft ≠ .crashInit) :
+    ∃ F, F0 ≤ F ∧ F ≤ e ∧ PImg W blockHashLag c F (exec W fx n (.prune e) ft).1.disk ∧
+      (ft = .none → F = e) :=
+  prune_exec_imagesP fx hwf hp hF0 he ft hb
+
+/-- `pruner.InitializeRunningEventFilter` on ANY image of a pruning node whose head is retained
+succeeds and yields an exact filter (next = height+1, aligned window, no false negative for any
+retained block) — whichever path it takes: snapshot as is, snapshot resumed from max(next, floor),
+rebuild from the last persisted window at or above the floor's window, rebuild from the floor. -/
+theorem pruning_node_restart_ok (W : Nat) (hW : 0 < W) (c : List Block) (hwf : WfChain c) (F : Nat)
+    (d : Disk) (hp : PImg W blockHashLag c F d) (hF : F < c.length) :
+    ∃ f d', initFilterP W d = some (f, d') ∧ FiltOKP W c F f :=
+  initFilterP_good hW hwf hp.pcoh hF hp.wins hp.snap
+
+/-- History level: after EVERY history of store / revert / … calls with EVERY fault schedule, a
+`PruneUpto(e)` below the head that is interrupted anywhere (any fault) leaves a disk pruned below
+some `F ≤ e` from which a restarted pruning node builds an exact event filter. -/
+theorem restart_ok_after_prune (W : Nat) (hW : 0 < W) (hs : List (Op × Fault))
+    (hv : ValidHist W Fixes.all Node.init hs) (h e : Nat)
+    (hh : getHeight (run W Fixes.all Node.init hs).disk = some h) (h0 : 0 < e) (he : e ≤ h)
+    (ft : Fault) (hb : ft ≠ .failInit ∧ ft ≠ .crashInit) :
+    ∃ c F f d', F ≤ e ∧
+      PCoh blockHashLag c F (exec W Fixes.all (run W Fixes.all Node.init hs) (.prune e) ft).1.disk ∧
+      initFilterP W (exec W Fixes.all (run W Fixes.all Node.init hs) (.prune e) ft).1.disk = some (f, d') ∧
+      FiltOKP W c F f := by
+  obtain ⟨c, hg⟩ := crash_consistent W hW hs hv
+  have hlen : c.length ≠ 0 ∧ h = c.length - 1 := by
+    have := hg.coh.height
+    rw [hh] at this
+    by_cases h0 : c.length = 0
+    · rw [if_pos h0] at this; cases this
+    · rw [if_neg h0] at this; exact ⟨h0, by injection this⟩
+  obtain ⟨F, _, hFe, hp, _⟩ := prune_exec_imagesP Fixes.all hg.wf
+    (pimg_of_good (lag := blockHashLag) hg.coh hg.wins hg.snap) h0 (by omega) ft hb
+  obtain ⟨f, d', h1, h2⟩ := initFilterP_good hW hg.wf hp.pcoh (by omega) hp.wins hp.snap
+  exact ⟨c, F, f, d', hFe, hp.pcoh, h1, h2⟩
+
+-- a concrete pruned node (W = 2): blocks 0..2, prune below 2; the restarted filter expects block 3
+example : (initFilterP 2 (run 2 .all Node.init
+    [(.store b0, .none), (.store b1, .none), (.store b2, .none), (.prune 2, .none)]).disk).map
+      (fun r => (r.1.next, r.1.win.lo, r.1.win.has 2 7)) = some (3, 2, true) := by decide
 
 /-! ## Regression witnesses for defects that are fixed in /repo (code variants that no longer exist)
 
